@@ -37,7 +37,7 @@ func TestSim(t *testing.T) {
 func run(r *core.R) {
 	maxEp := 8
 	if r.Tier == "thorough" {
-		maxEp = 12
+		maxEp = 8
 	}
 	n := r.Src.Range(1, maxEp, "n_episodes")
 	r.Cfg("episodes", n)
@@ -982,7 +982,7 @@ func runEndpoints(r *core.R) string {
 	s.nPols = r.Src.Range(1, len(policyNames), "n_policies")
 	maxOps := 70
 	if r.Tier == "thorough" {
-		maxOps = 160
+		maxOps = 120
 	}
 	nOps := r.Src.Range(6, maxOps, "n_ops")
 	r.Cfg("ip_version", int(cfg.ipVersion))
